@@ -243,6 +243,9 @@ func TestC01(t *testing.T) {
 	}
 	for ci, cfg := range []string{"sha", "alt"} {
 		g := &gen{r: newRng(int64(100 + ci)), noBool: true, maxElem: 40}
+		for _, ty := range wideContainers() {
+			run("corpus", ty, g.val(ty), cfg)
+		}
 		for _, ty := range fixed {
 			for k := 0; k < 3; k++ {
 				run("corpus", ty, g.val(ty), cfg)
